@@ -29,6 +29,7 @@ const timeFormat = "2006-01-02T15:04"
 // error strings in the parser
 const duplicateArgErrorMessage = "duplicate argument provided"
 const intOutOfRangeError = "integer is not in signed 64-bit range"
+const invalidStringLiteralError = "invalid string literal"
 
 // parser represents a parser for the PQL language.
 type parser struct {
@@ -76,7 +77,7 @@ func (p *parser) Parse() (*Query, error) {
 		if !ok {
 			return nil, fmt.Errorf("unexpected parser error of type %T: %[1]v", v)
 		}
-		if strings.HasPrefix(errorMessage, duplicateArgErrorMessage) || strings.HasPrefix(errorMessage, intOutOfRangeError) {
+		if strings.HasPrefix(errorMessage, duplicateArgErrorMessage) || strings.HasPrefix(errorMessage, intOutOfRangeError) || strings.HasPrefix(errorMessage, invalidStringLiteralError) {
 			return nil, fmt.Errorf("%s", v)
 		} else {
 			panic(v)
